@@ -67,8 +67,8 @@ def char_cell(ctx, r):
     ctx.sample({"char_cell": r.to_json(), "valid_first_attempt": nvalid, "distinct_outputs": len(tally), "entropy_bits": E}, limit=12)
 
 
-def wl_cell(ctx, l, L, sep, cap):
-    res = wlgen.run_wl_cell(ctx, l, L, sep, cap)
+def wl_cell(ctx, l, L, sep, cap, shadow=None):
+    res = wlgen.run_wl_cell(ctx, l, L, sep, cap, shadow=shadow)
     if not res:
         return
     ents = set()
@@ -114,11 +114,12 @@ EXTRA_WL_CELLS = [
 def oracle(ctx, deep):
     ctx.searched = ("exact outcome probabilities from complete cells of the real generators (character recipes: conditional on first-attempt acceptance; "
                     "wordlist recipes: all choice tuples) against 2^-Entropy as reported; Password.Entropy against the recipe's Entropy(); the open findings F7, F8")
-    for r in (CHAR_CELLS if (deep or ctx.tier == "thorough") else CHAR_CELLS[:6]):
+    for r in (CHAR_CELLS if (deep or ctx.tier == "thorough") else CHAR_CELLS[:7]):
         char_cell(ctx, r)
     cells = list(WL_CELLS[:6]) + EXTRA_WL_CELLS + (list(WL_CELLS[6:]) if (deep or ctx.tier == "thorough") else [])
     for (l, L, sep, cap) in cells:
         wl_cell(ctx, l, L, sep, cap)
+    wl_cell(ctx, ["4", "5"], 3, ("preset", "SFDigits1"), "none", shadow="-")     # both separator fields set: the function is used
     wl_cell(ctx, ["", "a"], 3, ("char", ""), "none")          # open finding F7
     # Password.Entropy is the recipe's Entropy()
     rec_ent = {}
@@ -155,7 +156,7 @@ def oracle(ctx, deep):
             if mass * count > 1:
                 ctx.violations.append({"finding_key": key, "what": "separator missing after all %d attempts failed: this outcome has mass about %.3g per gap, 2^-(separator entropy) is %.3g" % (
                     T, float(mass), 1.0 / float(count) if count < 10 ** 300 else 0.0), "case": c["meta"],
-                    "line": wlgen.wlgen_line(c["list"], c["length"], c["sep"], c["cap"], c["budget"], c["words"])[:300] + "..."})
+                    "line": wlgen.wlgen_line(c["list"], c["length"], c["sep"], c["cap"], c["budget"], c["words"], shadow=c.get("shadow"))[:300] + "..."})
 
 
 def replay(v):
@@ -163,5 +164,6 @@ def replay(v):
     r, _ = core.run_impl([line])
     print(line[:400])
     print("->", (r.get("r") or "")[:600])
+    core.replay_shared_list(v["line"])
     print("violation:", v["what"])
     return 1
